@@ -29,6 +29,7 @@ func init() {
 		Parts: []Part{
 			{Name: "matrix", Run: c17Run, Workers: 8, QuickS: 60, ThoroughS: 300},
 			{Name: "strings", Run: c17Strings, QuickS: 60, ThoroughS: 900},
+			{Name: "siblings", Run: c17Siblings, Workers: 2, QuickS: 30, ThoroughS: 60},
 		},
 	})
 }
@@ -387,6 +388,116 @@ func c17Strings(c *core.Ctx) {
 		c.Outcome("unchanged")
 		if c.S.Programs%300 == 1 {
 			c.Sample(map[string]any{"string": cs.S, "literal_checked": literal})
+		}
+	})
+}
+
+// ---- sibling fields: several fields of one component (and of two components of one start) bound
+// from the same key / the same literal must each get the value converted to *their own* type
+
+type c17SibCase struct {
+	Text    string `json:"text"`
+	Sibling string `json:"sibling_type"` // the other field: pint pfloat pbool int float bool
+	Checked string `json:"checked_type"` // string pstring
+	Path    string `json:"path"`         // value prop literal
+	First   bool   `json:"sibling_declared_first"`
+	TwoComp bool   `json:"two_components,omitempty"`
+}
+
+func c17Siblings(c *core.Ctx) {
+	combos := map[string][]string{
+		"007": {"pint", "int", "pfloat"}, "1.10": {"pfloat", "float"}, "+5": {"pint", "int"}, "1e3": {"pfloat", "float"},
+		"TRUE": {"pbool", "bool"}, "false": {"pbool", "bool"}, "2.50": {"pfloat"}, "0": {"pint", "pbool", "pfloat"},
+	}
+	types := map[string]reflect.Type{
+		"pint": reflect.TypeOf((*int)(nil)), "int": reflect.TypeOf(0), "pfloat": reflect.TypeOf((*float64)(nil)), "float": reflect.TypeOf(0.0),
+		"pbool": reflect.TypeOf((*bool)(nil)), "bool": reflect.TypeOf(false), "string": reflect.TypeOf(""), "pstring": reflect.TypeOf((*string)(nil)),
+	}
+	gen := func(yield func(c17SibCase) bool) {
+		var texts []string
+		for t := range combos {
+			texts = append(texts, t)
+		}
+		sort.Strings(texts)
+		for _, t := range texts {
+			for _, sib := range combos[t] {
+				for _, chk := range []string{"string", "pstring"} {
+					for _, path := range []string{"value", "prop", "literal"} {
+						for _, first := range []bool{true, false} {
+							for _, two := range []bool{false, true} {
+								if !yield(c17SibCase{t, sib, chk, path, first, two}) {
+									return
+								}
+							}
+						}
+					}
+				}
+			}
+		}
+	}
+	Cases(c, gen, func(c *core.Ctx, cs c17SibCase) {
+		doc, _ := yaml.Marshal(map[string]any{"k": cs.Text})
+		var tag string
+		switch cs.Path {
+		case "value":
+			tag = `value:"${k}"`
+		case "prop":
+			tag = `prop:"k"`
+		default:
+			tag = "value:" + strconv.Quote(cs.Text)
+		}
+		sib := reflect.StructField{Name: "S", Type: types[cs.Sibling], Tag: reflect.StructTag(tag)}
+		chk := reflect.StructField{Name: "X", Type: types[cs.Checked], Tag: reflect.StructTag(tag)}
+		var comps []any
+		var holder reflect.Value
+		if cs.TwoComp {
+			// two components: the sibling's holder gets a name that sorts before / after the checked one
+			h1 := reflect.New(reflect.StructOf([]reflect.StructField{sib, {Name: "Pad", Type: reflect.TypeOf(int8(0))}}))
+			holder = reflect.New(reflect.StructOf([]reflect.StructField{chk}))
+			if cs.First {
+				comps = []any{h1.Interface(), holder.Interface()}
+			} else {
+				comps = []any{holder.Interface(), h1.Interface()}
+			}
+		} else {
+			fs := []reflect.StructField{sib, chk}
+			if !cs.First {
+				fs = []reflect.StructField{chk, sib}
+			}
+			holder = reflect.New(reflect.StructOf(fs))
+			comps = []any{holder.Interface()}
+		}
+		o := scen.Start(scen.StartSpec{Ch: envx.Fixed("", nil), Comps: comps, Opts: []app.SettingOption{app.SetConfigLoader(loader.NewRawLoader(doc))}})
+		c.S.Evaluations++
+		c.S.Programs++
+		c.S.States++
+		c.S.Transitions += 2
+		c.S.Nontrivial++
+		key := "C17/siblings/" + core.Hash(cs)
+		if !o.OK() {
+			c.Outcome("siblings/start-failed")
+			c.Report(key, "value-changed", fmt.Sprintf("%+v: start-up failed: %v %s", cs, scen.FirstLine(o.Err), o.Panic), cs)
+			return
+		}
+		x := holder.Elem().FieldByName("X")
+		got := ""
+		if x.Kind() == reflect.Pointer {
+			if x.IsNil() {
+				got = "<nil>"
+			} else {
+				got = x.Elem().String()
+			}
+		} else {
+			got = x.String()
+		}
+		if got != cs.Text {
+			c.Outcome("siblings/changed")
+			c.Report(key, "value-changed", fmt.Sprintf("%s field bound through %s from text %q next to a %s field bound from the same text (sibling declared first: %v, separate components: %v): holds %q", cs.Checked, cs.Path, cs.Text, cs.Sibling, cs.First, cs.TwoComp, got), cs)
+			return
+		}
+		c.Outcome("siblings/unchanged")
+		if c.S.Programs%60 == 1 {
+			c.Sample(map[string]any{"case": cs, "bound": got})
 		}
 	})
 }
